@@ -73,6 +73,9 @@ def gc_plants(rng):
         {"path": "cond-out/pk/older", "kind": "symlink", "target": "../../cond-out-2023/sweep"},
         {"path": "cond-out/pk/linkin", "kind": "symlink", "target": "../pk"},
         {"path": "cond-out/d.task.1/sub/y.task.2", "kind": "dir", "files": {"w": "inside unrecorded"}},
+        # regular FILES whose names look like experiment outputs (a note, a tarball somebody renamed): not output directories
+        {"path": "cond-out/notes.task.77", "kind": "file"},
+        {"path": "cond-out/pk/a.task.1234567890", "kind": "file"},
     ]
     k = rng.randrange(2, len(cands) + 1)
     return rng.sample(cands, k)
